@@ -112,7 +112,14 @@ def check_property(pid, tier="quick", only_jobs=None, keep=False, seed=0):
             tool_errors.append("%s: verifier warning: %s" % (j["name"], bad[:2]))
             continue
         ok = [o for o in rel if o.status == "SUCCESS"]
-        fl = [o for o in rel if o.status != "SUCCESS"]
+        # UNKNOWN: CBMC could not decide the obligation because it lies behind
+        # a failed one; it is neither discharged nor a violation of its own.
+        unk = [o for o in rel if o.status == "UNKNOWN"]
+        fl = [o for o in rel if o.status not in ("SUCCESS", "UNKNOWN")]
+        allfail = [o for o in r.obligations if o.kind != "canary" and o.status == "FAILURE"]
+        if unk and not allfail:
+            tool_errors.append("%s: %d obligations undecided (UNKNOWN) without a failed obligation in front of them"
+                               % (j["name"], len(unk)))
         jf = []
         for o in fl:
             if o.kind == "unwind":
